@@ -549,7 +549,7 @@ func (rn *runner) hook(ev string, kv ...any) {
 			return
 		}
 		if rn.recording {
-			rn.tr.Emit(tl.M{"op": "presync", "t": id.Table, "kind": id.Kind, "fno": id.Fno})
+			rn.tr.Emit(tl.M{"op": "presync", "t": id.Table, "kind": id.Kind, "fno": id.Fno, "lens": rn.lens()})
 			rn.crashPoint(fmt.Sprintf("before fsync of %s", name))
 		}
 		rn.tk.synced(name)
@@ -747,7 +747,9 @@ func (rn *runner) crashPoint(what string) {
 		if rn.sum.Evaluations%97 == 1 {
 			rn.sum.Sample(tl.M{"at": what, "cuts": cuts[i], "res": res})
 		}
-		os.RemoveAll(dirs[i])
+		if !keepImages {
+			os.RemoveAll(dirs[i])
+		}
 	}
 }
 
@@ -955,6 +957,7 @@ func (rn *runner) history(h int, steps int, script string) {
 }
 
 var unsyncedTail bool
+var keepImages bool
 
 // mainCrash picks one crash image of the present moment and continues the history on it.
 func (rn *runner) mainCrash(h, k int) {
@@ -1060,7 +1063,9 @@ func main() {
 	steps := flag.Int("steps", 10, "calls per history")
 	perPt := flag.Int("images", 6, "crash images per crash point")
 	every := flag.Bool("every-length", false, "propose every byte length between durable and current")
+	flag.BoolVar(&keepImages, "keep-images", false, "do not remove the crash image directories (debugging)")
 	flag.BoolVar(&unsyncedTail, "unsynced-tail", false, "also truncate the tail above the synced head")
+	firstID := flag.Int("first-id", 1, "id of the first appended item (ids determine blob sizes; for replaying a recorded history)")
 	script := flag.String("script", "", "run this history instead of random ones, e.g. a2,s,t1,h1,c,a1 (append/sync/tail/head/crash)")
 	scripts := flag.String("scripts", "", "JSON file with call histories sampled by TLC ([[{c,n}..]..]) to run before the random ones")
 	out := flag.String("out", "summary.json", "summary output")
@@ -1087,7 +1092,7 @@ func main() {
 	if err != nil {
 		tl.Fatal("executable: %v", err)
 	}
-	rn := &runner{cfg: cfg, cfgName: *cfgName, self: self, scratch: *dir, r: tl.Rand(seed), sum: sum, thor: *every, perPt: *perPt, nextID: 1, shapes: map[string]bool{}}
+	rn := &runner{cfg: cfg, cfgName: *cfgName, self: self, scratch: *dir, r: tl.Rand(seed), sum: sum, thor: *every, perPt: *perPt, nextID: *firstID, shapes: map[string]bool{}}
 	rn.tr = tl.NewTrace(*trace)
 	rawdb.VerifHook = rn.hook
 	h := 0
